@@ -23,10 +23,10 @@ FUNCS = ['every function of the four library translation units reachable from: v
 
 
 class Threads:
-    def __init__(self):
-        self.h = Harness(CPP, LIBS)
+    def __init__(self, domain='C', solver=None, h=None):
+        self.h = h or Harness(CPP, LIBS)
         self.mod = self.h.mod
-        self.ex = Executor(self.mod, 'C', None)
+        self.ex = Executor(self.mod, domain, solver)
         self.st = self.ex.new_state()
         self.st.thread = 1
         self.slots = self.st.user_buffer(8 * 1024, 'objects', align=16).base
@@ -60,6 +60,20 @@ class Threads:
         self.st = rs[0].state
         return rs[0].retval
 
+    def call_all(self, thread, fn, args, pc=()):
+        """symbolic variant: every feasible path is run (the monitor sees the stores of all of them); the first ok state continues"""
+        self.st.thread = thread
+        self.st.access_hook = self.hook
+        st = self.st.clone()
+        st.pc = list(st.pc) + list(pc)
+        rs = self.ex.run(st, fn, args)
+        bad = [r for r in rs if r.status != 'ok' or r.retval != 0]
+        if bad or not rs:
+            raise ExecError('%s under thread %d: %r' % (fn, thread, [(r.status, r.retval, r.info) for r in bad][:3]))
+        self.st = rs[0].state
+        self.st.pc = []
+        return rs
+
     def thread_exit(self, thread):
         """run the thread-local destructors the code registered for this thread, most recent first"""
         mine = [d for d in self.st.tls_dtors if d[0] == thread]
@@ -89,7 +103,12 @@ def main(tier):
     chk.cov['functions_encoded'] = FUNCS
     chk.cov['explanation'] = ('Schedules are NOT enumerated (no encoding of pthreads / the TLS runtime; CBMC cannot take this pointer-rich code in its concurrency mode). The claim is a non-interference '
                               'argument: if no operation class writes memory that another thread may access, every interleaving is race free and yields the sequential results. The write sets are measured by executing the real code '
-                              '(LLVM IR interpreter, concrete doubles) with an access monitor under logical threads; the static scan covers code the dynamic runs do not reach.')
+                              '(symbolic execution of the LLVM IR: every value symbolic for the arithmetic classes and the queries, concrete doubles where the matrix exponential is involved) with an access monitor under logical threads; the static scan covers code these runs do not reach.')
+    chk.cov['bounds'] = {'logical threads': 3, 'vector algebra': 'd in %s, one random input per dimension, the same program under thread 1 and thread 2' % ('2,3,5' if tier == 'quick' else '2..6'),
+                         'shared solver': 'one configuration (d=3, nx=4), built by thread 1, four const queries from threads 2 and 3', 'hand-over': 'd = 2, 3, 6', 'static scan': 'all globals of the four linked library translation units',
+                         'schedules': 'NOT enumerated: the argument is that no operation writes memory another thread can reach'}
+    chk.cov['domains'] = ['R (exact reals, all values symbolic; branch feasibility by z3) with an access monitor on every store, for the arithmetic classes and the shared-solver queries', 'concrete doubles (IR interpreter) with the same monitor for the runs that include the matrix exponential, solver construction, hand-over and thread exit']
+    chk.cov['stubs'] = ['thread-local storage: one instance per logical thread', '__cxa_thread_atexit: destructor recorded and run at logical thread exit', 'GSL containers, zgemm, LU: shim', 'RNG of the norm estimator: deterministic hash']
     chk.assumptions = ['write sets are those of the executed paths for the dimensions and inputs used (d = 2..6 for vector algebra, one solver configuration); control flow of these operations does not depend on thread identity',
                        'GSL and libstdc++ internals are assumed thread safe for distinct objects', 'a data race needs a store: concurrent loads of the shared solver are race free']
     t = Threads()
@@ -144,6 +163,44 @@ def main(tier):
                 chk.broken_q('interpreter and native build disagree on h_algebra d=%d' % d)
             results['algebra d=%d' % d] = 'write set confined to own/thread-local objects: %s' % (not t.violations)
         chk.obligation('vector algebra incl. matrix exponential under threads 1 and 2 (d in %s): every store hits the thread\'s stack, heap blocks, buffers or its own thread-local storage; results bit-identical across threads' % ('2,3,5' if tier == 'quick' else '2..6'), 'holds' if nviol == 0 else 'fails')
+        # ---- (a3) the same write-set assertion with every VALUE symbolic (exact-real domain, path feasibility by the solver): arithmetic classes and queries
+        solver = S.Solver(timeout_ms=30000)
+        ts = Threads('R', solver, h=t.h)
+        nsym = 0
+        for d in ((2, 3) if tier == 'quick' else (2, 3, 4, 5, 6)):
+            n = d * d
+            for thread in (1, 2):
+                o = ts.st.find(ts.io.base)
+                for i in range(2 * n):
+                    o.cells[8 * i] = (8, T.var('in%d' % i))
+                ts.violations.clear()
+                rs = ts.call_all(thread, 'h_algebra_sym', [d, ts.io.base, ts.io.base + 8 * 2 * n, T.var('t'), T.var('th'), T.var('del'), T.var('sc')])
+                nsym += len(rs)
+                for v in list(ts.violations):
+                    chk.report('write-set:algebra:%s' % v.split(' ')[-1][:40], 'vector algebra on a thread\'s own vectors performs a %s (dimension %d, thread %d, symbolic values)' % (v, d, thread), {'d': d})
+                    nviol += 1
+        chk.obligation('vector algebra (sum, commutators, Evolve, Rotate, scalar product, matrix conversion) with all components, time, angles and scalar SYMBOLIC, d in %s, threads 1 and 2: on every feasible path every store hits the thread\'s own objects (%d paths)' % (
+            '2,3' if tier == 'quick' else '2..6', nsym), 'holds' if nviol == 0 else 'fails')
+        d, nx = 3, 4
+        S2 = ts.slots + 2048
+        pre = set(o.base for o in ts.st.live_heap(('new[]', 'new', 'malloc')))
+        ts.call_all(1, 'h_solver_make', [S2, nx, d])
+        blocks = [o for o in ts.st.live_heap(('new[]', 'new', 'malloc')) if o.base not in pre]
+        ts.shared_ranges = [(S2, S2 + 2048, 'the shared solver object')] + [(o.base, o.base + o.size, 'a heap block owned by the shared solver (%s %d bytes)' % (o.kind, o.size)) for o in blocks]
+        xT = T.var('x')
+        npq = 0
+        for thread in (2, 3):
+            ts.violations.clear()
+            rs = ts.call_all(thread, 'h_query', [S2, d, xT, ts.io.base], pc=[T.fcmp('oge', xT, Fraction(0)), T.fcmp('ole', xT, Fraction(1))])
+            npq += len(rs)
+            for v in list(ts.violations):
+                chk.report('write-set:query:%s' % v.split('(')[0].strip()[-40:], 'a const query on the shared solver performs a %s (thread %d, x symbolic)' % (v, thread), {'x': 'symbolic'})
+                nviol += 1
+        ts.shared_ranges = []
+        ts.call_all(1, 'h_solver_drop', [S2])
+        chk.obligation('const queries on the shared solver with the position x SYMBOLIC in [0,1] (every feasible path of the node lookup, %d paths): no store into the solver or a block it owns' % npq, 'holds' if nviol == 0 else 'fails')
+        chk.note_solver(solver)
+        chk.note_exec(ts.ex)
         # ---- shared solver: constructed by thread 1, queried by threads 2 and 3
         d, nx = 3, 4
         S_ADDR = t.slots + 2048
@@ -187,8 +244,7 @@ def main(tier):
         chk.broken_q(str(e)[:300])
     chk.cov['write_sets'] = {('%s:%s' % k): v for k, v in sorted(t.stores.items(), key=lambda kv: -kv[1])[:25]}
     chk.cov['results'] = results
-    chk.cov['paths'] = t.ex.stats['paths']
-    chk.cov['ir_instructions'] = t.ex.stats['steps']
+    chk.note_exec(t.ex)
     chk.nqueries = max(chk.nqueries, 1)
     chk.hashes |= {'static-scan', 'algebra', 'queries', 'hand-over', 'thread-exit'}
     chk.samples.append({'operation classes executed': list(results.keys())})
